@@ -153,6 +153,8 @@ class Package(collections.namedtuple('Package', 'path, manifest')):
                     shutil.rmtree(path)
                 else:
                     path.unlink()
+                # the path might be changing between a directory and a zip file - drop its cached importer
+                sys.path_importer_cache.pop(str(path.resolve()), None)
             return True
 
         path = pathlib.Path(path)
